@@ -154,3 +154,69 @@ Lemma src_step_protocol rows cols nm re rm ri s a : shaped rows cols (s_board s)
 Proof.
   intros Sh Hr. destruct (step_src rows cols s Sh Hr nm re rm ri a) as [_ E]. rewrite E. apply step_protocol.
 Qed.
+
+(* ---- whole episodes of the translated step ---- *)
+Section Episodes.
+  Variables rows cols nm re rm ri : Z.
+  Hypothesis Hrows : 0 < rows.
+  Local Notation rc := (M.mkR re rm ri).
+  Local Notation sstep := (step nm (DefaultRewardFn_call re rm ri) DefaultDoneFn_call).
+
+  (* any action sequence, played through (also past LAST) *)
+  Fixpoint play_src (s : State) (acts : list (Z * Z)) : State :=
+    match acts with [] => s | a :: rest => play_src (fst (sstep s a)) rest end.
+  (* an episode: the steps up to and including the first LAST *)
+  Fixpoint run_src (s : State) (acts : list (Z * Z)) : list (State * tstep) :=
+    match acts with
+    | [] => []
+    | a :: rest => let p := sstep s a in p :: (if st (snd p) =? LAST then [] else run_src (fst p) rest)
+    end.
+  Definition cp (p : State * tstep) : M.state * tstep := (conv (fst p), snd p).
+
+  Lemma play_src_eq acts : forall s, Phys rows cols nm (conv s) -> Forall (in_spec_p rows cols) acts ->
+    conv (play_src s acts) = play rc rows cols (conv s) acts.
+  Proof.
+    induction acts as [|a rest IH]; intros s P F; cbn [play_src play]; [reflexivity|].
+    inversion F as [|? ? [Ha1 Ha2] F']; subst.
+    destruct (step_src rows cols s (ph_shape _ _ _ _ P) Hrows nm re rm ri a) as [E1 _].
+    rewrite IH; [rewrite E1; reflexivity | rewrite E1; apply step_Phys; assumption | assumption].
+  Qed.
+
+  Lemma run_src_eq acts : forall s, Phys rows cols nm (conv s) -> Forall (in_spec_p rows cols) acts ->
+    map cp (run_src s acts) = M.run rc rows cols (conv s) acts.
+  Proof.
+    induction acts as [|a rest IH]; intros s P F; cbn [run_src M.run map]; [reflexivity|].
+    inversion F as [|? ? [Ha1 Ha2] F']; subst.
+    destruct (step_src rows cols s (ph_shape _ _ _ _ P) Hrows nm re rm ri a) as [E1 E2].
+    unfold cp at 1. rewrite E1, E2. rewrite <- surjective_pairing. f_equal.
+    destruct (st (snd (M.step rc rows cols (conv s) (fst a) (snd a))) =? LAST); [reflexivity|].
+    rewrite IH; [rewrite E1; reflexivity | rewrite E1; apply step_Phys; assumption | assumption].
+  Qed.
+
+  (* C07: every state reached by the translated step under in-spec actions is physically consistent *)
+  Lemma src_any_actions s acts : Phys rows cols nm (conv s) -> Forall (in_spec_p rows cols) acts -> Phys rows cols nm (conv (play_src s acts)).
+  Proof. intros P F. rewrite (play_src_eq acts s P F). exact (play_Phys rc rows cols nm acts (conv s) P F). Qed.
+
+  (* C08: the return of an episode of the translated step telescopes into the documented objective *)
+  Lemma src_return_decomposition s acts : Phys rows cols nm (conv s) -> Forall (in_spec_p rows cols) acts ->
+    let tr := map cp (run_src s acts) in
+    M.ret tr = re * (M.safe_revealed rows cols (M.final (conv s) tr) - M.safe_revealed rows cols (conv s))
+             + rm * (M.mine_revealed rows cols (M.final (conv s) tr) - M.mine_revealed rows cols (conv s))
+             + ri * n_invalid rc rows cols (conv s) acts.
+  Proof. intros P F. cbv zeta. rewrite (run_src_eq acts s P F). exact (return_decomposition rc rows cols nm acts (conv s) P F). Qed.
+
+  (* C04, history form: from the generator's state the mask handed out after ANY in-spec action sequence is True exactly on the
+     squares not played yet *)
+  Lemma src_mask_iff_not_played locs acts r c : 0 <= cols -> M.valid_draw rows cols nm locs = true -> Forall (in_spec_p rows cols) acts ->
+    0 <= r < rows -> 0 <= c < cols ->
+    let s0 := fst (reset_from nm (mkState (repeat (repeat (-1) (Z.to_nat cols)) (Z.to_nat rows)) 0 locs)) in
+    (gat false (o_action_mask (state_to_observation nm (play_src s0 acts))) r c = true <-> ~ In (r, c) acts).
+  Proof.
+    intros Hc V F Hr Hc'. cbv zeta. destruct (reset_src rows cols nm locs) as [E0 _]. cbv zeta in E0.
+    set (s0 := fst (reset_from nm (mkState (repeat (repeat (-1) (Z.to_nat cols)) (Z.to_nat rows)) 0 locs))) in *.
+    assert (P0 : Phys rows cols nm (conv s0)) by (rewrite E0; apply init_Phys; [lia | assumption | assumption]).
+    destruct (obs_src (play_src s0 acts) nm) as (_ & E & _). rewrite E.
+    change (s_board (play_src s0 acts)) with (M.board (conv (play_src s0 acts))). rewrite (play_src_eq acts s0 P0 F), E0.
+    exact (mask_iff_not_played rc rows cols nm locs acts r c ltac:(lia) Hc V F Hr Hc').
+  Qed.
+End Episodes.
